@@ -700,6 +700,12 @@ func genObj(r *plan.Rand, uniq string, data []DatumSpec, allowFilter bool) (ObjS
 			opts.Hook = "panicky"
 		}
 	}
+	if opts.Tag == "" && r.Chance(0.06) {
+		opts.Tag = EmptyTag
+	}
+	if opts.Hook == "" && r.Chance(0.05) {
+		opts.Hook = NilHook
+	}
 	if r.Chance(0.12) {
 		// a parse budget: mostly generous, sometimes too small (creation then
 		// fails with the max-expressions error, an outcome like any other)
